@@ -378,14 +378,20 @@ L1Roots == {r \in Roots : h.orig[r].kind = "l1"}
 
 \* every step of the route happens at most once per request, and only in causal order
 ExactlyOnceRouting ==
-  /\ Cardinality({x.root : x \in h.fwd}) = Cardinality(h.fwd)     \* forwarded once
+  LET L1R == L1Roots
+      FwdRoots == {x.root : x \in h.fwd}
+      FwdKeys == {<<x.root, x.id>> : x \in h.fwd}
+      L2Keys == {<<x.root, x.from>> : x \in h.l2}
+      Ans == DOMAIN h.ans
+  IN
+  /\ Cardinality(FwdRoots) = Cardinality(h.fwd)                     \* forwarded once
   /\ Cardinality({x.root : x \in h.l2}) = Cardinality(h.l2)       \* handed to the owner's L2 once
   /\ Cardinality({x.to : x \in h.rsp}) = Cardinality(h.rsp)       \* answered to the L1 once
   /\ Cardinality({x.to : x \in h.orsp}) = Cardinality(h.orsp)     \* answered to the remote requester once
-  /\ \A e \in h.fwd : e.root \in L1Roots
-  /\ \A e \in h.l2 : e.root \in Roots /\ (e.root \in L1Roots => \E x \in h.fwd : x.root = e.root /\ x.id = e.from)
-  /\ \A e \in h.orsp : e.root \in DOMAIN h.ans /\ e.via = e.root /\ \E x \in h.l2 : x.root = e.root /\ x.from = e.to
-  /\ \A e \in h.rsp : e.to \in DOMAIN h.ans /\ e.via = e.to /\ \E x \in h.fwd : x.root = e.to
+  /\ FwdRoots \subseteq L1R
+  /\ \A e \in h.l2 : e.root \in Roots /\ (e.root \in L1R => <<e.root, e.from>> \in FwdKeys)
+  /\ \A e \in h.orsp : e.root \in Ans /\ e.via = e.root /\ <<e.root, e.to>> \in L2Keys
+  /\ \A e \in h.rsp : e.to \in Ans /\ e.via = e.to /\ e.to \in FwdRoots
 
 \* a request leaves towards the GPU whose address range contains it, and reaches the L2 bank of that GPU
 OwnerIsAddressRangeOwner ==
@@ -403,7 +409,7 @@ PayloadPreserved ==
 
 \* answers go to the requester they belong to, referring to the requester's own message
 RspToOriginator ==
-  /\ \A e \in h.rsp : /\ e.to \in L1Roots
+  /\ \A e \in h.rsp : /\ e.to \in Roots /\ h.orig[e.to].kind = "l1"
                       /\ e.c = h.orig[e.to].g /\ e.dst = h.orig[e.to].src /\ e.src = P(e.c, "rqi", 0)
   /\ \A e \in h.orsp : e.to \in DOMAIN h.msrc /\ e.dst = h.msrc[e.to] /\ e.src = P(e.c, "dto", 0)
 
@@ -417,11 +423,25 @@ Answered(r) == IF h.orig[r].kind = "l1" THEN \E e \in h.rsp : e.to = r ELSE \E e
 \* consequence for the platform: while a GPU is drained none of its own remote accesses is in flight,
 \* and with every GPU drained only requests of scripted peers can still be around
 DrainedNoOwnTraffic ==
-  \A c \in cfg.comps : env.phase[c] = "drained" => \A e \in h.fwd : e.c = c => Answered(e.root)
+  (\E c \in cfg.comps : env.phase[c] = "drained") =>
+     LET done == {e.to : e \in h.rsp} IN
+     \A e \in h.fwd : env.phase[e.c] = "drained" => e.root \in done
 AllDrainedQuiet ==
   (\A c \in cfg.comps : env.phase[c] = "drained") =>
+     LET L1R == L1Roots IN
      \A c \in cfg.comps : /\ tab[c].ins = <<>>
-                          /\ \A i \in 1..Len(tab[c].outs) : RootOf(tab[c].outs[i].orig.id) \notin L1Roots
+                          /\ \A i \in 1..Len(tab[c].outs) : RootOf(tab[c].outs[i].orig.id) \notin L1R
+
+\* forget everything about a completed root (trace validation of long runs: the history stays as small as the
+\* number of requests in flight; ids stay in `used`, so anything that refers to a forgotten message is still refused)
+Prune(hh, r) ==
+  LET keep == {i \in DOMAIN hh.root : hh.root[i] # r} IN
+  [orig |-> [i \in DOMAIN hh.orig \ {r} |-> hh.orig[i]],
+   root |-> [i \in keep |-> hh.root[i]],
+   msrc |-> [i \in DOMAIN hh.msrc \cap keep |-> hh.msrc[i]],
+   ans |-> [i \in DOMAIN hh.ans \ {r} |-> hh.ans[i]],
+   fwd |-> {e \in hh.fwd : e.root # r}, l2 |-> {e \in hh.l2 : e.root # r},
+   rsp |-> {e \in hh.rsp : e.to # r}, orsp |-> {e \in hh.orsp : e.root # r}, acks |-> hh.acks]
 
 Quiescent ==
   /\ \A c \in cfg.comps : port[c] = NoPorts /\ tab[c].ins = <<>> /\ tab[c].outs = <<>>
